@@ -244,16 +244,18 @@ class GotWriteAnswer(Spec):
     file = F
     qualname = "Publish._got_write_answer"
     level = "B"
-    bound = "read_data with the writer's own share and 0..1 unknown share; goal/servermap membership symbolic"
+    bound = "read_data with the writer's own share and 0..1 further share (a number nobody writes, or the number another writer writes to this or to another server); goal/servermap membership symbolic"
     cross_check = 0
     raises = ()
-    canary_case = {"extra": "other", "answer": "refused"}
+    canary_case = {"extra": "other", "answer": "refused", "extra_shnum": 7, "w1_here": True}
 
     def inputs(self):
-        return {"extra": ChoiceK(["none", "same", "other"]), "answer": ChoiceK(["none", "wrote", "refused"]), "was_surprised": BoolK(), "in_goal": BoolK(), "reachable": BoolK()}
+        return {"extra": ChoiceK(["none", "same", "other"]), "answer": ChoiceK(["none", "wrote", "refused"]), "was_surprised": BoolK(), "in_goal": BoolK(), "reachable": BoolK(),
+                "extra_shnum": ChoiceK([7, 1]), "w1_here": ChoiceK([True, False])}
 
     def all_cases(self):
-        return [{"extra": e, "answer": w} for e in ("none", "same", "other") for w in ("none", "wrote", "refused")]
+        return [{"extra": e, "answer": w, "extra_shnum": x, "w1_here": h} for e in ("none", "same", "other") for w in ("none", "wrote", "refused")
+                for (x, h) in ((7, True), (1, True), (1, False))]
 
     def config(self):
         o = dict(LOGS)
@@ -267,13 +269,14 @@ class GotWriteAnswer(Spec):
         ws, writers = mk_writers(I, (0, 1), server_of=lambda i: "serverA")
         w = writers[0]
         read_data = {0: [b"mine"]}
+        X = a["extra_shnum"]
         if a["extra"] == "same":
-            read_data[7] = [b"CHECK"]
+            read_data[X] = [b"CHECK"]
         elif a["extra"] == "other":
-            read_data[7] = [b"OTHER"]
+            read_data[X] = [b"OTHER"]
         goal = set()
         if a["extra"] != "none" and I.path.branch(to_z3_bool(a["in_goal"])):
-            goal.add(("serverA", 7))
+            goal.add(("serverA", X))
         reach = set()
         if a["extra"] == "other" and I.path.branch(to_z3_bool(a["reachable"])):
             reach.add("serverA")
@@ -282,10 +285,10 @@ class GotWriteAnswer(Spec):
         st = stub("status", add_per_server_time=noop)
         w.fields["server"] = stub("serverA-obj", get_name=lambda I_, a_, k_: "A")
         srv = w.fields["server"]
-        writers[1].fields["server"] = srv
-        if ("serverA", 7) in goal:
+        writers[1].fields["server"] = srv if a["w1_here"] else stub("serverB-obj", get_name=lambda I_, a_, k_: "B")
+        if ("serverA", X) in goal:
             goal.clear()
-            goal.add((srv, 7))
+            goal.add((srv, X))
         if reach:
             reach.clear()
             reach.add(srv)
@@ -307,7 +310,8 @@ class GotWriteAnswer(Spec):
         if a["answer"] == "none":
             g.append(("a-non-answer-changes-nothing", z3.And(sb == was, z3.BoolVal(not placed and not self._added))))
             return g
-        must = (a["answer"] == "refused") or (a["extra"] == "other")
+        ours = a["extra_shnum"] == 1 and a["w1_here"]        # a share we are ourselves writing to this very server is no surprise (#546)
+        must = (a["answer"] == "refused") or (a["extra"] == "other" and not ours)
         g.append(("refused-write-or-unknown-version-sets-surprised", sb if must else (sb == was)))
         ok_placed = (a["answer"] == "wrote")
         g.append(("only-an-accepted-write-is-recorded-as-placed", z3.BoolVal((len(placed) == 1 and self._added == [(out.post["srv"], 0)]) if ok_placed else (not placed and not self._added))))
